@@ -477,6 +477,31 @@ def csdNames (destS : Sp) (dest : St) (srcS : Sp) (src : St) (names : List Nat) 
   let r := names.foldl step (dest, 0)
   (r.1, if r.2 = names.length then .all else if r.2 > 0 then .some else .none)
 
+/-! #### the names overload on top-level wrappers (with the proposed repair of F105)
+
+`WrapperStateSpace::setup` copies the wrapped space's name → location table, whose chains are relative to the *wrapped*
+state.  With `getSubstateAtLocation` virtual and overridden by the wrapper (`notes/C09-fix-F105.diff`) the wrapper's state
+is unwrapped first, so the copy happens between the wrapped states.  (Today the non-virtual function walks the wrapper's
+state as a `CompoundState`: undefined behaviour, finding F105; the driver uses `csdNamesW` only for the dedicated probe.) -/
+
+def Sp.unwrap : Sp → Sp
+  | .wrapper _ s => s.unwrap
+  | sp => sp
+
+/-- the state inside the top-level wrappers of `sp` -/
+def St.unwrapAs : Sp → St → St
+  | .wrapper _ s, .wrap x => St.unwrapAs s x
+  | _, st => st
+
+/-- put a state of the wrapped space back inside the top-level wrappers of `sp` -/
+def St.rewrapAs : Sp → St → St
+  | .wrapper _ s, x => .wrap (St.rewrapAs s x)
+  | _, x => x
+
+def csdNamesW (destS : Sp) (dest : St) (srcS : Sp) (src : St) (names : List Nat) : St × CopyRes :=
+  let r := csdNames destS.unwrap (St.unwrapAs destS dest) srcS.unwrap (St.unwrapAs srcS src) names
+  (St.rewrapAs destS r.1, r.2)
+
 /-- index of the first component with the given name -/
 def findChild : List Sp → Nat → Nat → Option Nat
   | [], _, _ => none
